@@ -191,9 +191,12 @@ func (g *OGen) twin(src, v pcommon.Value) {
 			x.SetStr(fmt.Sprint(x.Int()))
 		}
 	case pcommon.ValueTypeDouble:
-		if x.Double() == 0 {
+		switch {
+		case x.Double() == 0:
 			x.SetDouble(math.Copysign(0, -1))
-		} else {
+		case g.r.Bool():
+			x.SetDouble(math.Nextafter(x.Double(), math.Inf(1))) // the neighbouring double
+		default:
 			x.SetInt(int64(x.Double()))
 		}
 	case pcommon.ValueTypeBool:
@@ -277,7 +280,13 @@ func (g *OGen) Attrs(m pcommon.Map, maxN int) {
 
 // near-identical identities: same keys, values differing only in type or delimiters
 func (g *OGen) identityAttrs(m pcommon.Map) {
-	switch g.r.Intn(8) {
+	switch g.r.Intn(11) {
+	case 8:
+		m.PutDouble("a", 1700000000.25) // doubles that agree in their leading digits
+	case 9:
+		m.PutDouble("a", 1700000123.75)
+	case 10:
+		m.PutDouble("a", math.Nextafter(1700000000.25, 2e9))
 	case 0:
 		m.PutStr("a", "1")
 	case 1:
